@@ -11,6 +11,12 @@ CLAIMED = {
         note="Trusted: Lean kernel; translator (fails closed on unsupported Rust); Spec/Range.lean = std semantics on naturals (validated against real std each run); HipStr char-boundary part is checked differentially here and proved on the Core model (C06).",
         design="DESIGN.md §6 C08",
     ),
+    "C10": dict(
+        technique="Lean 4 theorems over a two-pass copy model with adversarial (universally quantified) piece lists, instantiated with assertion flags extracted from the source + scripted misbehaving-iterator differential",
+        text="Proof: for EVERY pair of piece lists (what the length pass saw, what the copy pass saw) concat and join either panic or return exactly the concatenation / join of the pieces actually copied, never an uninitialised or out-of-buffer byte, in normalised representation; with a consistent iterator they equal std's concat/join. The guards the proof relies on (per-copy <= and final == assertions) are re-extracted from src/bytes.rs on every run (Gen/Concat.lean), so removing one breaks a named theorem. The real functions (HipByt/HipStr x concat/join/concat_slices/join_slices x 3 backends) are driven with scripted misbehaving Clone/Iterator/AsRef implementations and compared with the model and with std, fresh memory filled with 0xFF.",
+        note="Trusted: Lean kernel; the translator's template match for the assert!s; the hand-written two-pass model (tied by the differential on ~36k scripted cases per profile); std's concat/join as the oracle. repeat is covered by the Core refinement (C01).",
+        design="DESIGN.md §6 C10",
+    ),
 }
 
 NOT_YET = {
